@@ -170,7 +170,7 @@ def fsm_level(ctx, sd, which):
             feats = done.get("features", {})
             if not rp and done and not done.get("bad_sequences"):
                 for need in ("users", "privileges", "subscriptions", "truncated-group", "group-starting-at-epoch0",
-                             "group-truncated-at-epoch0", "deleted-group"):
+                             "group-truncated-at-epoch0", "deleted-group", "deleted-group-with-shards", "alias-probes"):
                     if not feats.get(need):
                         raise Infra("round-trip exploration never reached a value with %s (vacuous): %s" % (need, feats))
             extra.update({"roundtrip_values": done.get("values", 0), "roundtrip_features": feats})
